@@ -21,7 +21,7 @@ import (
 // Symlink resolution per call follows POSIX: Lstat, Remove, Rename, Symlink and utimensat(AT_SYMLINK_NOFOLLOW)
 // do not follow a symlink in the final component; Stat, Chmod, MkdirAll, CreateTemp's directory do. Symlinks in
 // non-final components are always followed. Permission bits are recorded but never enforced (the native replay
-// runs as root, too).
+// runs as root, too). Creating or removing a directory entry sets the directory's modification time to "now".
 
 type zzvKind int
 
@@ -50,6 +50,8 @@ type zzvModel struct {
 	target  string // absolute path of the extraction target
 	// first mutation that landed outside the target (engine-side per-call oracle)
 	escape string
+	// modification time a directory gets when an entry is created in or removed from it (0 while seeding)
+	now int64
 }
 
 type zzvHandle struct {
@@ -173,9 +175,15 @@ func (m *zzvModel) addChild(dir *zzvNode, name string, n *zzvNode, isTarget bool
 	n.outside = dir.outside && !isTarget
 	dir.kids[name] = n
 	dir.names = append(dir.names, name)
+	if m.now != 0 {
+		dir.mtime = m.now
+	}
 }
 
 func (m *zzvModel) delChild(dir *zzvNode, name string) {
+	if m.now != 0 {
+		dir.mtime = m.now
+	}
 	delete(dir.kids, name)
 	for i, x := range dir.names {
 		if x == name {
@@ -459,6 +467,8 @@ type zzvEntry struct {
 
 type zzvScript struct {
 	ents []zzvEntry
+	gen  func(i int) (zzvEntry, bool) // further members, drawn when the reader asks for them
+	ngen int
 	pos  int
 	off  int
 }
@@ -477,6 +487,14 @@ func zzvTarNewReader(r io.Reader) *tar.Reader {
 
 func zzvTarNext(tr *tar.Reader) (*tar.Header, error) {
 	s := zzvScripts[tr]
+	if s != nil && s.pos == len(s.ents) && s.gen != nil {
+		if e, ok := s.gen(s.ngen); ok {
+			s.ngen++
+			s.ents = append(s.ents, e)
+		} else {
+			s.gen = nil
+		}
+	}
 	if s == nil || s.pos >= len(s.ents) {
 		if s != nil {
 			s.pos = len(s.ents) + 1
